@@ -100,6 +100,10 @@ type interpreter struct {
 	subst     map[string]value // function substitution table (harness-registered)
 	env       *envState
 	inInit    int
+	wk        *workerCtx
+	bigUsed   []*bigBuf
+	deferGo   bool // template mode: goroutines started by initialisers are started after the snapshot
+	pendingGo []pendingGo
 }
 
 type deferred struct {
@@ -136,9 +140,7 @@ func (fr *frame) get(key ssa.Value) value {
 	case *ssa.Const:
 		return constValue(key)
 	case *ssa.Global:
-		if r, ok := fr.i.globals[key]; ok {
-			return r
-		}
+		return fr.i.global(key)
 	}
 	if r, ok := fr.env[key]; ok {
 		return r
@@ -319,7 +321,11 @@ func visitInstr(fr *frame, instr ssa.Instruction) continuation {
 	case *ssa.Go:
 		fn, args := prepareCall(fr, &instr.Call)
 		i := fr.i
-		i.sch.spawn(fmt.Sprint(fn), func() { call(i, nil, instr.Pos(), fn, args) })
+		if i.deferGo {
+			i.pendingGo = append(i.pendingGo, pendingGo{name: fmt.Sprint(fn), fn: fn, args: args})
+		} else {
+			i.sch.spawn(fmt.Sprint(fn), func() { call(i, nil, instr.Pos(), fn, args) })
+		}
 
 	case *ssa.MakeChan:
 		fr.env[instr] = &chanObj{cap: int(asInt64(fr.i.concrete(fr, fr.get(instr.Size), "chansize")))}
@@ -334,7 +340,11 @@ func visitInstr(fr *frame, instr ssa.Instruction) continuation {
 			// local
 			addr = fr.env[instr].(*value)
 		}
-		*addr = zero(typeparams.MustDeref(instr.Type()))
+		if at, ok := typeparams.MustDeref(instr.Type()).Underlying().(*types.Array); ok && at.Len() >= bigArrayLen {
+			*addr = array(fr.i.bigAlloc(int(at.Len())))
+		} else {
+			*addr = zero(typeparams.MustDeref(instr.Type()))
+		}
 
 	case *ssa.MakeSlice:
 		fr.env[instr] = fr.i.makeSlice(fr, instr, fr.get(instr.Len), fr.get(instr.Cap))
@@ -369,20 +379,32 @@ func visitInstr(fr *frame, instr ssa.Instruction) continuation {
 		x := fr.get(instr.X)
 		idx := fr.get(instr.Index)
 		var cells []value
+		var tElt types.Type
 		switch x := x.(type) {
 		case []value:
 			cells = x
+			tElt = instr.X.Type().Underlying().(*types.Slice).Elem()
 		case *value: // *array
+			tArr := typeparams.MustDeref(instr.X.Type())
+			if *x == nil {
+				*x = zero(tArr)
+			}
 			cells = (*x).(array)
+			tElt = tArr.Underlying().(*types.Array).Elem()
 		case absBytes:
 			panic(engineError{"element access on an abstract-length byte slice"})
 		default:
 			panic(fmt.Sprintf("unexpected x type in IndexAddr: %T", x))
 		}
+		if cap(cells) >= 64 {
+			fr.i.touch(cells)
+		}
 		if si, ok := idx.(*sym); ok {
-			fr.env[instr] = fr.i.symIndexAddr(fr, cells, si)
+			fr.env[instr] = fr.i.symIndexAddr(fr, cells, si, tElt)
 		} else {
-			fr.env[instr] = &cells[asInt64(idx)]
+			p := &cells[asInt64(idx)]
+			forceT(p, tElt)
+			fr.env[instr] = p
 		}
 
 	case *ssa.Index:
@@ -391,19 +413,20 @@ func visitInstr(fr *frame, instr ssa.Instruction) continuation {
 
 		switch x := x.(type) {
 		case array:
+			tElt := instr.X.Type().Underlying().(*types.Array).Elem()
 			if si, ok := idx.(*sym); ok {
-				switch p := fr.i.symIndexAddr(fr, x, si).(type) {
+				switch p := fr.i.symIndexAddr(fr, x, si, tElt).(type) {
 				case symptr:
 					fr.env[instr] = fr.i.symLoad(p)
 				case *value:
 					fr.env[instr] = *p
 				}
 			} else {
-				fr.env[instr] = x[asInt64(idx)]
+				fr.env[instr] = forceT(&x[asInt64(idx)], tElt)
 			}
 		case string:
 			if si, ok := idx.(*sym); ok {
-				switch p := fr.i.symIndexAddr(fr, strCells(x), si).(type) {
+				switch p := fr.i.symIndexAddr(fr, strCells(x), si, types.Typ[types.Uint8]).(type) {
 				case symptr:
 					fr.env[instr] = fr.i.symLoad(p)
 				case *value:
@@ -414,7 +437,7 @@ func visitInstr(fr *frame, instr ssa.Instruction) continuation {
 			}
 		case symstr:
 			if si, ok := idx.(*sym); ok {
-				switch p := fr.i.symIndexAddr(fr, []value(x), si).(type) {
+				switch p := fr.i.symIndexAddr(fr, []value(x), si, types.Typ[types.Uint8]).(type) {
 				case symptr:
 					fr.env[instr] = fr.i.symLoad(p)
 				case *value:
@@ -572,10 +595,12 @@ func callSSA(i *interpreter, caller *frame, callpos token.Pos, fn *ssa.Function,
 			if i.mode&EnableTracing != 0 {
 				fmt.Fprintln(os.Stderr, "\t(external)")
 			}
+			i.touchArgs(args)
 			return ext(fr, args)
 		}
 		if fn.Blocks == nil {
 			if ext := asmExternal(fn); ext != nil {
+				i.touchArgs(args)
 				return ext(fr, args)
 			}
 			panic(engineError{"no code for function: " + fn.String()})
